@@ -103,15 +103,19 @@ def parse_jaqal_string(
         # The builder descends recursively into nested blocks
         raise JaqalError("The program's blocks are nested too deeply")
 
-    if expand_macro:
-        # preserve_definitions maintains old API behavior
-        circuit = expand_macros(circuit, preserve_definitions=True)
+    try:
+        if expand_macro:
+            # preserve_definitions maintains old API behavior
+            circuit = expand_macros(circuit, preserve_definitions=True)
 
-    if expand_let_map:
-        circuit = fill_in_let(circuit, override_dict=override_dict)
-        circuit = fill_in_map(circuit)
-    elif expand_let:
-        circuit = fill_in_let(circuit, override_dict=override_dict)
+        if expand_let_map:
+            circuit = fill_in_let(circuit, override_dict=override_dict)
+            circuit = fill_in_map(circuit)
+        elif expand_let:
+            circuit = fill_in_let(circuit, override_dict=override_dict)
+    except RecursionError:
+        # The passes descend recursively into macro calls and alias chains
+        raise JaqalError("The program's macros or aliases are nested too deeply")
 
     if sum(reg.fundamental for reg in circuit.registers.values()) > 1:
         raise JaqalError(f"Circuit has too many registers: {list(circuit.registers)}")
